@@ -1212,6 +1212,7 @@ func ruleTDepth(w *World, r *Report) {
 		}
 	}
 	// Tarjan on the graph without guards
+	isGuard := func(f *ssa.Function) bool { return guards[f] != nil }
 	idx := map[*ssa.Function]int{}
 	low := map[*ssa.Function]int{}
 	on := map[*ssa.Function]bool{}
@@ -1224,7 +1225,7 @@ func ruleTDepth(w *World, r *Report) {
 		idx[v], low[v] = n, n
 		stack = append(stack, v)
 		on[v] = true
-		for _, c := range w.pkgCallees(v) {
+		for _, c := range w.csCallees(v, isGuard) {
 			if guards[c] != nil || !reach[c] {
 				continue
 			}
@@ -1249,7 +1250,7 @@ func ruleTDepth(w *World, r *Report) {
 				}
 			}
 			self := false
-			for _, c := range w.pkgCallees(v) {
+			for _, c := range w.csCallees(v, isGuard) {
 				if c == v {
 					self = true
 				}
@@ -2045,4 +2046,144 @@ func fixedArraySafe(base, idx ssa.Value) bool {
 	}
 	k, ok := constInt(idx)
 	return ok && k >= 0 && k < arr.Len()
+}
+
+// csCallees: the callees of v for recursion analysis, with calls made through a
+// function-typed parameter attributed to the caller that passed the function.
+//
+// A generic helper `parseLogicalExpr(n, op, operand func(node) node)` calls
+// `operand(n)`; the call graph gives that call every function any caller ever
+// passed, which turns or -> helper -> and, and -> helper -> equality into an
+// apparent cycle and -> helper -> and. Here the helper's call of its parameter is
+// dropped from the helper's own callees (when every caller in the package
+// passes a function that can be named), and each caller gets an edge to the
+// function it passed at that call — unless the helper is a depth guard, in
+// which case the path through it is cut like any path through a guard.
+func (w *World) csCallees(v *ssa.Function, isGuard func(*ssa.Function) bool) []*ssa.Function {
+	set := map[*ssa.Function]bool{}
+	ho := w.calledFuncParams(v)
+	attributable := len(ho) > 0 && w.allCallersNameTheirFuncs(v, ho)
+	add := func(f *ssa.Function) {
+		if f != nil && w.inPkg(f) && f.Synthetic == "" {
+			set[f] = true
+		}
+	}
+	n := w.CG.Nodes[v]
+	for _, b := range v.Blocks {
+		for _, in := range b.Instrs {
+			site, ok := in.(ssa.CallInstruction)
+			if !ok {
+				continue
+			}
+			com := site.Common()
+			if p, isP := com.Value.(*ssa.Parameter); isP && attributable && ho[paramIndex(v, p)] {
+				continue // attributed to v's callers
+			}
+			if n != nil {
+				for _, e := range n.Out {
+					if e.Site != site {
+						continue
+					}
+					c := e.Callee.Func
+					add(c)
+					if c.Synthetic != "" {
+						if cn := w.CG.Nodes[c]; cn != nil {
+							for _, e2 := range cn.Out {
+								add(e2.Callee.Func)
+							}
+						}
+					}
+				}
+			}
+			// what v passes to a helper that calls its function parameters
+			if h := com.StaticCallee(); h != nil && w.inPkg(h) && !isGuard(h) {
+				hp := w.calledFuncParams(h)
+				if len(hp) > 0 && w.allCallersNameTheirFuncs(h, hp) {
+					for i := range hp {
+						if i < len(com.Args) {
+							add(namedFunc(w, com.Args[i]))
+						}
+					}
+				}
+			}
+		}
+	}
+	// closures made here and anything else the call graph knows without a site in v's own blocks
+	for _, c := range w.pkgCallees(v) {
+		if c.Parent() == v {
+			set[c] = true
+		}
+	}
+	var out []*ssa.Function
+	for f := range set {
+		out = append(out, f)
+	}
+	sort.Slice(out, func(i, j int) bool { return fnName(out[i]) < fnName(out[j]) })
+	return out
+}
+
+func paramIndex(f *ssa.Function, p *ssa.Parameter) int {
+	for i, q := range f.Params {
+		if q == p {
+			return i
+		}
+	}
+	return -1
+}
+
+// calledFuncParams: indices of the function-typed parameters f calls directly.
+func (w *World) calledFuncParams(f *ssa.Function) map[int]bool {
+	out := map[int]bool{}
+	for _, b := range f.Blocks {
+		for _, in := range b.Instrs {
+			if site, ok := in.(ssa.CallInstruction); ok {
+				if p, ok := site.Common().Value.(*ssa.Parameter); ok {
+					if i := paramIndex(f, p); i >= 0 {
+						out[i] = true
+					}
+				}
+			}
+		}
+	}
+	return out
+}
+
+// namedFunc: the package function a function-valued argument stands for: a
+// function, a closure, or a method value.
+func namedFunc(w *World, a ssa.Value) *ssa.Function {
+	switch x := a.(type) {
+	case *ssa.Function:
+		return x
+	case *ssa.MakeClosure:
+		f, _ := x.Fn.(*ssa.Function)
+		if f != nil && strings.HasPrefix(f.Synthetic, "bound method wrapper") {
+			if obj, ok := f.Object().(*types.Func); ok {
+				return w.Prog.FuncValue(obj)
+			}
+		}
+		return f
+	}
+	return nil
+}
+
+// allCallersNameTheirFuncs: every call of h in the package is a static call
+// that passes, for each of the given parameters, a function namedFunc resolves;
+// and h's function parameters do not escape otherwise (h is not used as a value).
+func (w *World) allCallersNameTheirFuncs(h *ssa.Function, params map[int]bool) bool {
+	n := w.CG.Nodes[h]
+	if n == nil || len(n.In) == 0 {
+		return false
+	}
+	for _, e := range n.In {
+		if e.Site == nil || e.Site.Common().StaticCallee() != h {
+			return false
+		}
+		args := e.Site.Common().Args
+		for i := range params {
+			if i >= len(args) || namedFunc(w, args[i]) == nil {
+				return false
+			}
+		}
+	}
+	return true
 }
